@@ -3,6 +3,7 @@ package c08
 import (
 	"bytes"
 	"context"
+	"encoding/json"
 	"fmt"
 	"strings"
 	"testing"
@@ -286,6 +287,84 @@ func stackCase(pos, alt int, isRoot bool) harness.Case {
 	}}
 }
 
+// asyncCase: DKG among real ps.TPS instances wired directly over a network that does not preserve
+// order: every set of at most `maxDelayed` maximally delayed messages (shard k of shards).
+func asyncCase(k cell, maxDelayed, shard, shards int) harness.Case {
+	return harness.Case{ID: fmt.Sprintf("async/%v/delayed<=%d/shard%d", k, maxDelayed, shard), Run: func(c *harness.C) {
+		all := cryptolib.AllMsgIDs(k.n, []byte{1, 2, 3})
+		var sets [][]cryptolib.MsgID
+		sets = append(sets, nil)
+		for i := range all {
+			sets = append(sets, []cryptolib.MsgID{all[i]})
+		}
+		if maxDelayed >= 2 {
+			for i := range all {
+				for j := i + 1; j < len(all); j++ {
+					sets = append(sets, []cryptolib.MsgID{all[i], all[j]})
+				}
+			}
+		}
+		if c.Replay != nil {
+			var rp struct {
+				Delayed []cryptolib.MsgID `json:"delayed"`
+			}
+			if json.Unmarshal(c.Replay, &rp) != nil {
+				return
+			}
+			sets = [][]cryptolib.MsgID{rp.Delayed}
+			shard, shards = 0, 1
+		}
+		for i, set := range sets {
+			if i%shards != shard {
+				continue
+			}
+			if c.Expired() {
+				c.Cap("time")
+				return
+			}
+			c.Exec(fmt.Sprintf("[async] %v delayed %v", k, set))
+			dl := map[cryptolib.MsgID]bool{}
+			for _, m := range set {
+				dl[m] = true
+			}
+			var shares map[uint16][]byte
+			var errs map[uint16]error
+			var trace []string
+			rec := c.Bubble(func() {
+				shares, errs, trace = cryptolib.DKGAsync("ps", k.n, k.t, k.l, dl, 20*time.Second)
+			})
+			if rec != nil && !harness.IsLeakPanic(rec) {
+				panic(rec)
+			}
+			c.Add("executions", 1)
+			c.Add("transitions", len(trace))
+			c.State("async|" + k.String() + "|" + strings.Join(trace, ";"))
+			rp := map[string]interface{}{"cell": k.String(), "delayed": set}
+			failed := false
+			for _, id := range cryptolib.IDs(k.n) {
+				if err := errs[id]; err != nil {
+					c.Violation("dkg-completes", "c08-async-dkg-fails", fmt.Sprintf("%v, messages %v overtaken by everything else: party %d: %v", k, set, id, err), rp)
+					failed = true
+					break
+				}
+			}
+			if failed {
+				continue
+			}
+			vecs := [][]string{{"h32"}}
+			if len(set) == 0 {
+				vecs = vectors(k.l, false)
+			}
+			for len(vecs[0]) < k.l {
+				vecs[0] = append(vecs[0], "h32")
+			}
+			if complete(c, "async", k, shares, vecs, rp) && c.Outcome("async|"+k.String()+"|"+strings.Join(trace, ";")) && len(set) > 0 {
+				c.Sample("c08-async", map[string]interface{}{"cell": k.String(), "delayed": fmt.Sprint(set), "deliveries": len(trace)})
+			}
+		}
+	}}
+}
+
 func gen(c *harness.C) []harness.Case {
 	c.Note("rule", "for every (n,t) and message length L: DKG among real ps.TPS instances, then for every message vector of the alphabet (empty, 1 byte, 32 bytes, 1 kB, all entries equal, rotations) every signer signs the blinded request, every partial signature unblinds under the signer's key, and for every subset of size >= t the proof of knowledge verifies; plus full-stack DKG for (3,2,L=1) under the default and every 1-deviation schedule; distinct_nontrivial = distinct (route, cell, vector, subset)")
 	var cells []cell
@@ -312,6 +391,29 @@ func gen(c *harness.C) []harness.Case {
 	var cases []harness.Case
 	for _, k := range cells {
 		cases = append(cases, syncCase(k, c.Thorough()))
+	}
+	// backend-level DKG over a network that reorders (the orchestrator is not involved)
+	const ashards = 8
+	acells := []struct {
+		k cell
+		d int
+	}{{cell{3, 2, 1}, 2}, {cell{3, 3, 2}, 1}}
+	if c.Thorough() {
+		acells = append(acells, struct {
+			k cell
+			d int
+		}{cell{4, 3, 1}, 2}, struct {
+			k cell
+			d int
+		}{cell{3, 3, 2}, 2}, struct {
+			k cell
+			d int
+		}{cell{4, 2, 1}, 1})
+	}
+	for _, a := range acells {
+		for sh := 0; sh < ashards; sh++ {
+			cases = append(cases, asyncCase(a.k, a.d, sh, ashards))
+		}
 	}
 	cases = append(cases, stackCase(0, 0, true))
 	root := &explore.Recorder{}
